@@ -307,6 +307,15 @@ impl<'a> Reason<'a> {
     }
 }
 
+#[cfg(feature = "verif-hooks")]
+impl<'a> Reason<'a> {
+    pub(crate) fn verif_parts(&self) -> Option<(ReasonCode, Option<&Properties<'a>>)> {
+        self.reason
+            .as_ref()
+            .map(|data| (data.code, data._properties.as_ref()))
+    }
+}
+
 #[derive(Debug, Deserialize, Serialize)]
 struct ReasonData<'a> {
     pub code: ReasonCode,
